@@ -588,6 +588,21 @@ CHECKS["C17"]["level_text"] += (" Unit 'sched' (package scheduler) plays the sen
                                 "generated transfers of C01/C03/C17 draw the scheduler's size-class thresholds relative to the chunk size.")
 CHECKS["C18"]["level_text"] += (" Manifest root names that are not UTF-8 are generated as well.")
 CHECKS["C04"]["level_text"] += (" In half of the real-binary cases both prompt answers are on the join's standard input from the start (scripted use).")
+CHECKS["C10"]["level_text"] += (" Unit 'flood': the recipient stops reading while 10-45 MB (600-1400 messages) are addressed to it, so that the server's "
+                                "per-connection queue overflows, then reads on; what arrives must arrive once and in sending order, a bystander sees none "
+                                "of it (what was dropped while it did not read is not judged).")
+CHECKS["C11"]["level_text"] += (" Unit 'handler' (package main of thruserv): the real handleWebSocket behind a listener whose connections fail at the "
+                                "w-th write (1-6) or r-th read (1-4) after the upgrade, sender or receiver, alone or next to another peer; once the handler "
+                                "has returned the peer must be unlisted, unroutable and absent from a later joiner's peer list.")
+CHECKS["C12"]["level_text"] += (" Further events: a failure whose receiver accepts again inside the unlocked window of the failure path, and a burst of 70 "
+                                "signaling messages from a transferring receiver (the envelope handler must not wait for the transfer to read them).")
+CHECKS["C09"]["level_text"] += (" Unit 'relay-only': silent direct candidates and a peer reachable under a relay-prefixed candidate only.")
+CHECKS["C08"]["level_text"] += (" Since round 7 a sixth attacker behaviour leaves the primary and the first additional connection untouched and terminates "
+                                "the later ones.")
+CHECKS["C15"]["level_text"] += (" Endpoint ring: FileBegin naming hash algorithm 3, 4, 5, 128 or 255 for a file with recorded chunks in the output directory.")
+CHECKS["C16"]["level_text"] += (" After host and receiver have left, another host must be able to create a session (skipped when a creation rate or burst "
+                                "is configured).")
+CHECKS["C13"]["level_text"] += (" One case in 32 gives files modification times ahead of the clock and re-scans one second later.")
 CHECKS["C01"]["level_text"] += (" Unit 'e2e' runs the complete applications over real QUIC (thruserv, `thru host`, `thru join` as processes): "
                                 "whenever `thru join` exits 0 its output directory must hold exactly the hosted tree.")
 CHECKS["C12"]["level_text"] += (" Unit 'e2e' uses the real binaries: `thru host --max-receivers M` (M = 1, 2) serves M+1 or M+2 receivers that "
